@@ -251,3 +251,11 @@ PROPS['C12'] = dict(
     kinds={'panic', 'crash-unsafe'},
     rule='TODO', level_text='TODO', level_note='TODO',
 )
+
+PROPS['C11'] = dict(
+    id='C11', domains=['race'], no_model={'race': True}, race_domains=('race',),
+    n=dict(quick=dict(race=42), thorough=dict(race=700)),
+    theorems=[('Properties.C11', [])],
+    kinds={'panic', 'data-race', 'crash'},
+    rule='TODO', level_text='TODO', level_note='TODO',
+)
